@@ -52,6 +52,7 @@ def _subst_closure(e, captures, args):
 
 
 _INLINING = set()
+SELF_SPANNING = ("darling_core::error::Error::unexpected_lit_type", "darling_core::error::Error::unexpected_expr_type")
 
 
 import re as _re
@@ -307,6 +308,11 @@ class Algebra:
         if e[0] == "agg" and self.body is not None and self.depth < 6:
             # `Ok(match x { .. })`: a payload assembled in a local on several branches
             for k, op in enumerate(e[2]):
+                if op[0] == "call" and isinstance(op[1], str) and (op[1].startswith(R) or op[1].startswith(O)) and e[1] in (OK, ERR, SOME) and len(e[2]) == 1:
+                    # `Ok(r.map_err(f))`: the payload is itself a Result/Option expression
+                    sub_cases = self.expand(op)
+                    if len(sub_cases) > 1 and all(w[0] == "agg" for _, w in sub_cases):
+                        return [(at, ("agg", e[1], (w,))) for at, w in sub_cases]
                 if op[0] == "local" and len(op) == 2:
                     sub_cases = self.expand(op)
                     if len(sub_cases) > 1 or (sub_cases and sub_cases[0][1] != op):
@@ -387,6 +393,12 @@ class Algebra:
             return e
         if e[0] == "call" and isinstance(e[1], str) and len(e[2]) == 1 and _FROM.search(e[1]):
             return ("call", "From::from", (self.rewrite(e[2][0]),), ())
+        if e[0] == "call" and e[1] == "darling_core::error::Error::with_span" and len(e[2]) == 2:
+            # `unexpected_lit_type(x)` / `unexpected_expr_type(x)` span themselves with x (checked by
+            # C03.G.spanning-constructors): a further `.with_span(x)` is the same value
+            inner = S.strip_transparent(e[2][0])
+            if inner[0] == "call" and inner[1] in SELF_SPANNING and len(inner[2]) == 1 and S.strip_transparent(inner[2][0]) == S.strip_transparent(e[2][1]):
+                return self.rewrite(inner)
         if e[0] == "field" and e[1][0] == "variant" and e[1][2] == "Continue" and e[1][1][0] == "call" and str(e[1][1][1]).endswith("Try>::branch"):
             src = self.rewrite(e[1][1][2][0])
             return payload(src, "Some" if "core::option::Option<" in e[1][1][1] else "Ok")
